@@ -1498,6 +1498,10 @@ class Engine(object):
         if isinstance(v, VRef):
             o = st.heap[v.loc]
             if isinstance(o, HInst):
+                if o.view is not None and name in o.fields and self.mutable_field(o.cls, name):
+                    # a field the contract declares mutable: read through the list's current field state
+                    from .vals import parse_type as _pt
+                    return [(self.recfield_read(o.view[0], name, _pt(C.RECORDS[o.cls][name]), o.view[1], st), st)]
                 if name in o.fields:
                     return [(o.fields[name], st)]
                 if o.cls in C.DICT_RECORDS or ('%s.%s' % (o.cls, name)) in self.method_models:
